@@ -2,7 +2,8 @@
 (***************************************************************************)
 (* Operational formulation of `meson install`: the rules of the plan are   *)
 (* carried out one at a time, each as a sequence of file-system calls      *)
-(* (make missing directories, replace a file, set its mode, make a link)   *)
+(* (make missing directories, replace a file, change its owner and group,  *)
+(* set its mode, make a link)                                              *)
 (* on a *whole* file system in which DESTDIR is just one directory.  Every *)
 (* destination is re-rooted below DESTDIR at the moment it is used, so     *)
 (* `Confined` (nothing outside DESTDIR changes) is a statement about this  *)
@@ -11,6 +12,14 @@
 (* files and links in installation order followed by the remembered        *)
 (* directories in reverse order.  With dry-run no call changes the file    *)
 (* system but the same log is produced.                                    *)
+(*                                                                         *)
+(* The file system is the environment: what it creates belongs to the      *)
+(* installing process (o.uid, o.gid), and chown(2) on anything but a       *)
+(* directory clears the set-user-ID bit and (when the group may execute)   *)
+(* the set-group-ID bit - also for root, also when the ids stay the same.  *)
+(* That is why a declared install_mode is applied as "owner and group      *)
+(* first, permissions last" (SetMode); ChownKillsPriv below shows that the *)
+(* other order loses the declared bits.                                    *)
 (*                                                                         *)
 (* Install_MC checks, for every processing order of the rules, that the    *)
 (* result equals the declarative Install!Install.                          *)
@@ -28,20 +37,47 @@ MkChain(s, p, k, o, dry) ==
     ELSE LET q == SubSeq(p, 1, k) IN
          IF q \in DOMAIN s.fs \/ q \in Rng(s.dirs) THEN MkChain(s, p, k + 1, o, dry)
          ELSE MkChain([s EXCEPT !.dirs = Append(@, q),
-                                !.fs = IF dry THEN @ ELSE Put(@, q, Dir(NewDirMode(o)))], p, k + 1, o, dry)
+                                !.fs = IF dry THEN @ ELSE Put(@, q, NewDir(o))], p, k + 1, o, dry)
 \* make p and every missing ancestor, remembering what was made
 MkdirP(s, p, o, dry) == MkChain(s, p, 0, o, dry)
 
-Chmod(s, q, m, dry) == IF dry \/ q \notin DOMAIN s.fs THEN s ELSE [s EXCEPT !.fs = Put(@, q, [@[q] EXCEPT !.m = m])]
+\* ---- the calls that change mode, owner and group (environment: the kernel's rules) --------------------------
+\* chmod(2) of the entry itself; a symbolic link has no permissions of its own (and is never followed)
+Chmod(s, q, m, dry) ==
+    IF dry \/ q \notin DOMAIN s.fs \/ s.fs[q].t = "link" THEN s ELSE [s EXCEPT !.fs = Put(@, q, [@[q] EXCEPT !.m = m])]
+\* what chown(2) leaves of the mode of a non-directory: set-user-ID is cleared; set-group-ID is cleared when the group
+\* may execute (without group execute the bit marks mandatory locking and stays for a privileged or member caller)
+KillPriv(m) == LET m1 == ClearBit(m, SuidBit) IN IF Bit(m1, 3) = 1 THEN ClearBit(m1, SgidBit) ELSE m1
+\* lchown(2) of the entry itself; u / g = -1 leaves that id as it is
+Chown(s, q, u, g, dry) ==
+    IF dry \/ q \notin DOMAIN s.fs THEN s
+    ELSE [s EXCEPT !.fs = Put(@, q, [@[q] EXCEPT !.u = IF u >= 0 THEN u ELSE @, !.g = IF g >= 0 THEN g ELSE @,
+                                                 !.m = IF s.fs[q].t = "file" THEN KillPriv(@) ELSE @])]
+\* default permissions: 0777 / 0666 masked by install_umask, by what the entry is now; 'preserve' leaves it alone
+Sanitize(s, q, o, dry) ==
+    IF dry \/ q \notin DOMAIN s.fs \/ o.umask < 0 THEN s
+    ELSE Chmod(s, q, AndNot(IF s.fs[q].t = "dir" \/ HasX(s.fs[q].m) THEN 511 ELSE 438, o.umask), dry)
+\* install_mode [m, u, g] (-1 = not given) applied to the entry at q: owner and group first, permissions last
+SetMode(s, q, m, u, g, o, dry) ==
+    IF m < 0 /\ u < 0 /\ g < 0 THEN Sanitize(s, q, o, dry)
+    ELSE LET s1 == IF u >= 0 \/ g >= 0 THEN Chown(s, q, u, g, dry) ELSE s
+         IN IF m >= 0 THEN Chmod(s1, q, m, dry) ELSE Sanitize(s1, q, o, dry)
+\* the bits a rule for files asks chmod for (the sticky bit is dropped when the build definition is read)
+FileBits(i) == IF i.mode >= 0 THEN ClearBit(i.mode, StickyBit) ELSE -1
 
-\* install one file to q (node n carries the final permissions)
-CopyFile(s, q, n, o, a) ==
-    IF q \in DOMAIN s.fs
-    THEN IF a.oc /\ s.fs[q].t = "file" /\ s.fs[q].c = n.c
-         THEN Chmod(s, q, n.m, a.dry)                                           \* preserved, not logged
-         ELSE [s EXCEPT !.fs = IF a.dry THEN @ ELSE Put(@, q, n), !.files = Append(@, q)]
-    ELSE LET s1 == MkdirP(s, FrontOf(q), o, a.dry)
-         IN [s1 EXCEPT !.fs = IF a.dry THEN @ ELSE Put(@, q, n), !.files = Append(@, q)]
+\* install one source entry e of rule i to q: a new entry (what copying makes: the origin's permissions and time, owned
+\* by the installing process) replaces whatever was there, then the rule's install_mode is applied
+NewEntry(o, i, e) ==
+    IF e.t = "link" /\ (e.r = "none" \/ i.fl = "false") THEN Link(e.l, o.uid, o.gid) ELSE File(e.m, e.c, o.uid, o.gid, e.mt)
+CopyFile(s, q, i, e, o, a) ==
+    LET n   == NewEntry(o, i, e)
+        put(s0) == [s0 EXCEPT !.fs = IF a.dry THEN @ ELSE Put(@, q, n), !.files = Append(@, q)]
+        s1  == IF q \in DOMAIN s.fs
+               THEN IF a.oc /\ n.t = "file" /\ s.fs[q].t = "file" /\ s.fs[q].mt >= n.mt
+                    THEN s                                                       \* not older: preserved, not logged
+                    ELSE put(s)
+               ELSE put(MkdirP(s, FrontOf(q), o, a.dry))
+    IN SetMode(s1, q, FileBits(i), i.own, i.grp, o, a.dry)
 
 MakeLink(s, q, n, o, a) ==
     LET s1 == MkdirP(s, FrontOf(q), o, a.dry)
@@ -57,21 +93,20 @@ CopyTree(s, D, i, k, base, o, a) ==
             ELSE IF e.t = "dir"
             THEN IF q \in DOMAIN s.fs THEN CopyTree(s, D, i, k + 1, base, o, a)
                  ELSE CopyTree(Chmod(MkdirP(s, q, o, a.dry), q, DefaultPerm(o, e.m), a.dry), D, i, k + 1, base, o, a)
-            ELSE CopyTree(CopyFile(s, q, EntryNode(o, i, e), o, a), D, i, k + 1, base, o, a)
+            ELSE CopyTree(CopyFile(s, q, i, e, o, a), D, i, k + 1, base, o, a)
 
 \* one rule; D = DESTDIR (a path of the whole file system)
 DoItem(s, D, i, o, a) ==
     CASE i.kind \in {"data", "header", "man", "target"} ->
-           CopyFile(s, D \o FileDest(o, i), EntryNode(o, i, i.st[1]), o, a)
+           CopyFile(s, D \o FileDest(o, i), i, i.st[1], o, a)
       [] i.kind = "subdir" ->
            CopyTree(MkdirP(s, D \o SubBase(o, i), o, a.dry), D, i, 1, D \o SubBase(o, i), o, a)
       [] i.kind = "emptydir" ->
            LET q  == D \o AbsOf(o, i.dir)
                s1 == MkdirP(s, q, o, a.dry)
-               f  == CHOOSE f \in ForcedDirs(o, i) : TRUE
-           IN IF f.m >= 0 THEN Chmod(s1, q, f.m, a.dry) ELSE s1
+           IN SetMode(s1, q, i.mode, i.own, i.grp, o, a.dry)
       [] i.kind = "symlink" ->
-           MakeLink(s, D \o AbsOf(o, i.dir) \o <<LastOf(i.src)>>, Link(i.to), o, a)   \* pointing_to is taken as written
+           MakeLink(s, D \o AbsOf(o, i.dir) \o <<LastOf(i.src)>>, Link(i.to, o.uid, o.gid), o, a)   \* pointing_to is taken as written
       [] OTHER -> s
 
 RECURSIVE DoItems(_, _, _, _, _)
